@@ -87,6 +87,15 @@ func (c *ItemsController) ByColor(ctx context.Context, color Color) (string, err
 	return str(r), err
 }
 
+// @Method(GET)
+// @Route(/scale)
+// @Query(ratio)
+// @Query(factor)
+func (c *ItemsController) Scale(ratio float32, factor *float64) (string, error) {
+	r, err := trace.Invoke("ItemsController.Scale", ratio, factor)
+	return str(r), err
+}
+
 // A method declared with an anonymous receiver and a @Security annotation without properties.
 //
 // @Method(GET)
